@@ -5,6 +5,7 @@ import (
 	"go/ast"
 	"go/types"
 	"os"
+	"regexp"
 	"strings"
 
 	"golang.org/x/tools/go/ssa"
@@ -468,6 +469,12 @@ func (fr *frame) applyContract(st *PState, ct *Contract, sig *types.Signature, f
 	}
 	env2 := &SpecEnv{ex: ex, vars: vars, cur: st, old: old, pkg: ct.Pkg, bound: map[string]T{}}
 	for _, en := range ct.Ensures {
+		if internalGhostRE.MatchString(en.Src) {
+			// a clause about calls, iterators or loops INSIDE the callee (res_*, it_*, loop<n>_*, defined(...)): it is
+			// proved for the callee and says nothing a caller can use - in particular `defined(res_X_0)` must not be
+			// evaluated against the caller's own call history
+			continue
+		}
 		t, err := env2.TrBool(en.Expr)
 		if err != nil {
 			if strings.Contains(err.Error(), "unknown identifier it_") || strings.Contains(err.Error(), "unknown identifier res_") {
@@ -486,6 +493,8 @@ func (fr *frame) applyContract(st *PState, ct *Contract, sig *types.Signature, f
 		k(st, &TupleVal{Elems: results})
 	}
 }
+
+var internalGhostRE = regexp.MustCompile(`\b(res_[A-Za-z_0-9]+|it_(idx|n|seq)|loop[0-9]+_[A-Za-z_0-9]+)\b`)
 
 // havocModifies havocs one item of a modifies clause at a call site.
 //
